@@ -5,8 +5,10 @@ import EgoVerif.C41.Model
    `san <hex>` → `<hex of sanitize>`
    `req <sid> <method> <url> <pattern> <user> <token> <auth admin json text> <query> <parts> <headers> <perms> <body>`
       → the request document after the wire: `<sid> <method> <url> <path> <user> <auth admin bearer json text> <params> <parts> <headers> <perms> <body>`
-   `resp <isJSON> <status|0> <_headers> <body> <realm header value>` → `<in-process http> | <child http>`,
-      http = `<status> <headers> <body hex | err:<status>:<msg hex>>` -/
+   `resp <request headers> <status|0> <_headers> <body> <realm header value>` → `<in-process http> | <child http>`,
+      http = `<status> <headers> <body hex | err:<status>:<msg hex>>`; the JSON-reply decision of each side is the
+      model's (`viewInproc` on the request headers as received, multi-valued; `viewChild` on the headers after
+      `encodeReq` and the wire), not an input -/
 namespace EgoVerif.C41
 
 def hx (b : Bytes) : String := if b.isEmpty then "-" else hexOfBytes b
@@ -87,13 +89,19 @@ def handle (line : String) : String :=
       let r : Request := { method := m, url := u, query := qs, headers := hdrs, body := body }
       showReq (wireReq (encodeReq s r))
     | _, _, _, _, _, _, _, _, _, _, _ => "bad-input"
-  | ["resp", js, st, hdrs, body, realm] =>
-    match st.toNat?, parseKV parseList hdrs, unhx body, unhx realm with
-    | some st, some hdrs, some body, some realm =>
+  | ["resp", rh, st, hdrs, body, realm] =>
+    match parseKV parseList rh, st.toNat?, parseKV parseList hdrs, unhx body, unhx realm with
+    | some rh, some st, some hdrs, some body, some realm =>
       let o : SvcOut := { status := if st = 0 then 200 else st, headers := hdrs, body := body }
       let keys := hdrs.map (·.1)
-      showHttp keys (respInproc (js == "1") o) ++ " | " ++ showHttp keys (respChild (js == "1") realm o)
-    | _, _, _, _ => "bad-input"
+      -- only the headers take part in the decision; the other request fields are irrelevant to it
+      let s : Session := { id := 0, path := [], user := [], token := [], authenticated := false, admin := false,
+                           acceptsJSON := false, acceptsText := false, parameters := [], urlParts := [], permissions := [] }
+      let r : Request := { method := [], url := [], query := [], headers := rh, body := [] }
+      let jIn := (viewInproc s r).jsonReply
+      let jCh := (viewChild (wireReq (encodeReq s r))).jsonReply
+      showHttp keys (respInproc jIn o) ++ " | " ++ showHttp keys (respChild jCh realm o)
+    | _, _, _, _, _ => "bad-input"
   | _ => "bad-op"
 
 def drv : Drv := Drv.pure handle
